@@ -420,10 +420,10 @@ func rewriteFile(fset *token.FileSet, f *ast.File, src []byte, rel string, info 
 
 	// --- import swaps
 	swap := map[string]string{
-		"sync":                             rtPath + "/simsync",
-		"sync/atomic":                      rtPath + "/simatomic",
-		"os":                               rtPath + "/simos",
-		"golang.org/x/sync/singleflight":   rtPath + "/singleflight",
+		"sync":                           rtPath + "/simsync",
+		"sync/atomic":                    rtPath + "/simatomic",
+		"os":                             rtPath + "/simos",
+		"golang.org/x/sync/singleflight": rtPath + "/singleflight",
 	}
 	defName := map[string]string{"sync": "sync", "sync/atomic": "atomic", "os": "os", "golang.org/x/sync/singleflight": "singleflight"}
 	for path, np := range swap {
